@@ -208,7 +208,17 @@ class Fn:
             reach = self.reachable()
             exits = set(self.exits())
             EXIT = -1
-            succs = {b: (list(self.succs(b)) or []) for b in reach}
+            # only successors from which a normal return is reachable count: an `unreachable` arm of a match, or a path that
+            # ends in a panic, is not a way to leave the function normally and must not dilute post-dominance
+            preds = self.preds()
+            canret, st = set(exits), list(exits)
+            while st:
+                x = st.pop()
+                for p0 in preds.get(x, []):
+                    if p0 not in canret and p0 in reach:
+                        canret.add(p0)
+                        st.append(p0)
+            succs = {b: [s2 for s2 in self.succs(b) if s2 in canret] for b in reach}
             for b in exits:
                 succs[b] = [EXIT]
             nodes = set(reach) | {EXIT}
